@@ -435,8 +435,12 @@ def write_summary_file_vue(stats, filepath, year=2025, currency_format="${amount
         'investmentTotal': stats.get('investment_total', 0),
     }
 
-    # Assemble final HTML
-    data_script = f'window.spendingData = {json.dumps(spending_data)};'
+    # Assemble final HTML. The JSON text sits inside a <script> element, which the HTML
+    # parser ends at the first "</script" (and treats "<!--" specially) whatever JavaScript
+    # string it is in: write every "<" as \\u003c (the same string to a JSON/JS parser) so
+    # no description or merchant name can close or escape the element.
+    data_json = json.dumps(spending_data).replace('<', '\\u003c')
+    data_script = f'window.spendingData = {data_json};'
 
     if not embedded_html:
         # Write separate files for easier development
